@@ -350,15 +350,16 @@ def wf_dragonbox_logs():
         kappa = int(re.search(r'impl DragonboxFloat for %s \{\s*const KAPPA: u32 = (\d+);' % fname, src).group(1))
         smallest = int(re.search(r'pub const SMALLEST_F%s_POW5: i32 = (-?\d+);' % f["tag"], tab).group(1))
         largest = int(re.search(r'pub const LARGEST_F%s_POW5: i32 = (-?\d+);' % f["tag"], tab).group(1))
+        bmax = 32 if f["tag"] == "32" else 64
         for e in range(f["emin"], f["emax"] + 1):
             # normal interval: minus_k = floor_log10_pow2(e) - kappa ; pow5 index -minus_k ; beta = e + floor_log2_pow10(-minus_k)
             mk = "(floor_log10_pow2(%d as int) - %d)" % (e, kappa)
             facts.append(("%s::floor_log10_pow2(%d)" % (fname, e), _floor_log_fact("log10_pow2", e, "floor_log10_pow2(%d as int)" % e),
                           "floor_log10_pow2 = q * %d >> %d" % (consts["floor_log10_pow2"][0], consts["floor_log10_pow2"][2])))
             facts.append(("%s::normal::power-index+beta(%d)" % (fname, e),
-                          "%d <= -%s && -%s <= %d && 1 <= %d + floor_log2_pow10(-%s) && %d + floor_log2_pow10(-%s) < 64" % (
-                              smallest, mk, mk, largest, e, mk, e, mk),
-                          "dragonbox_power(-minus_k) index in table; 1 <= beta < 64"))
+                          "%d <= -%s && -%s <= %d && 1 <= %d + floor_log2_pow10(-%s) && %d + floor_log2_pow10(-%s) < %d" % (
+                              smallest, mk, mk, largest, e, mk, e, mk, bmax),
+                          "dragonbox_power(-minus_k) index in table; 1 <= beta < %d (f32: compute_mul_parity shifts by 32 - beta)" % bmax))
         for q in range(smallest, largest + 1):
             facts.append(("%s::floor_log2_pow10(%d)" % (fname, q), _floor_log_fact("log2_pow10", q, "floor_log2_pow10(%d as int)" % q),
                           "floor_log2_pow10 = q * %d >> %d" % (consts["floor_log2_pow10"][0], consts["floor_log2_pow10"][2])))
